@@ -9,6 +9,7 @@
 import GocoinV.Proofs.C10Size
 import GocoinV.Proofs.C10Snap
 import GocoinV.Proofs.C10Keys
+import GocoinV.Proofs.C10Prime
 namespace GocoinV.Props.C10
 open GocoinV GocoinV.UtxoRec GocoinV.ScriptCompress GocoinV.CompactSize
 
@@ -194,22 +195,25 @@ theorem snapshot_records_roundtripC (K : KeyOps) (hK : K.Sound) (height : Nat) (
 
 /-- `mathKeys` — the arithmetic rendering of ParsePubkey(range check + curve equation) / SetXO
     (`c^((p+1)/4)`, sign by parity) / GetPublicKey that the oracle executes and the harness compares
-    with secp256k1 on every run — satisfies `KeyOps.Sound`, given only that the field modulus
-    p = 2^256 - 2^32 - 977 is prime (Fermat's little theorem + no zero divisors; primality itself is
-    left to C08's Pratt certificate). -/
-theorem mathKeys_sound_of_prime (hp : Nat.Prime P) : mathKeys.Sound :=
-  mathKeys_sound hp
+    with secp256k1 on every run — satisfies `KeyOps.Sound`: Fermat's little theorem + no zero divisors in
+    Z/p, with the primality of p = 2^256 - 2^32 - 977 supplied by C08's Pratt certificate
+    (`GocoinV.C08.secp_p_prime`, imported). No hypothesis is left. -/
+theorem mathKeys_sound_unconditional : mathKeys.Sound :=
+  ScriptCompress.mathKeys_sound_holds
+
+/-- The field modulus the model computes with is prime (C08's certificate, about the very constant
+    `ScriptCompress.P`). -/
+theorem field_modulus_prime : Nat.Prime P := ScriptCompress.P_prime
 
 /-- The compressed format is lossless for the model instance that is tied to the code: script round
-    trip, whole-record round trip and single-output lookup, with `Nat.Prime P` as the only assumption
-    about secp256k1. -/
-theorem compressed_lossless_mathKeys (hp : Nat.Prime P) :
+    trip, whole-record round trip and single-output lookup — unconditionally. -/
+theorem compressed_lossless_mathKeys :
     (∀ s c, compress mathKeys s = some c → decompress mathKeys c = .ok s) ∧
     (∀ r b, WFRecC r → serializeC mathKeys r = some b →
       newRecC mathKeys b = .ok r ∧ ∀ vout, oneC mathKeys b vout = .ok (outOf r vout)) :=
-  ⟨fun s c h => decompress_compress mathKeys (mathKeys_sound hp) s c h,
-   fun r b hw hs => ⟨newRecC_serializeC mathKeys (mathKeys_sound hp) r hw b hs,
-     fun vout => oneC_serializeC mathKeys (mathKeys_sound hp) r hw b hs vout⟩⟩
+  ⟨fun s c h => decompress_compress mathKeys ScriptCompress.mathKeys_sound_holds s c h,
+   fun r b hw hs => ⟨newRecC_serializeC mathKeys ScriptCompress.mathKeys_sound_holds r hw b hs,
+     fun vout => oneC_serializeC mathKeys ScriptCompress.mathKeys_sound_holds r hw b hs vout⟩⟩
 
 /-! ## non-vacuity: the hypotheses of the theorems above are satisfiable on concrete data -/
 
